@@ -252,6 +252,15 @@ static void do_prio(int j, int64_t prio)
 static void do_resume(int j)
 {
     proc *t = &PR[j];
+    if (t->started && t->finished && !t->start_pending && t->endkind == END_STOP && t->ended_in_op == OP_YIELD) {
+        /* stopped by somebody while it was yielding: whoever was going to resume it cannot know.  "If something else has ended the
+         * yield by the time the event runs, the signal is dropped" (cmb_process.h): nothing may come of it */
+        PROBE("c09.resume_sent_to_process_stopped_in_its_yield");
+        if (t->late_resume_n == 0 || t->late_resume_t != tnow()) { t->late_resume_t = tnow(); t->late_resume_n = 0; }
+        t->late_resume_n++;
+        cmb_process_resume(t->pp, 3000 + (int64_t)(W.sigctr++));
+        return;
+    }
     if (!t->started || t->finished || t->op != OP_YIELD) return;
     /* the tutorials resume yielded processes with the success code: do that too, when no other resume is on its way to the
      * same process in this instant (a second one would reach its next call, where 0 cannot be told from the call's own success) */
@@ -299,10 +308,12 @@ static void do_foreign_timer(int j, int what, int64_t arg)
     if (what == 0) {                                   /* add */
         if (t->ntimers >= MAXTIMERS) return;
         const double d = dur_of(arg % 13);
-        const int64_t sig = 2000 + (int64_t)(W.sigctr++);
+        const bool zero = (arg / 13) % 8 == 7;
+        const int64_t sig = zero ? CMB_PROCESS_SUCCESS : 2000 + (int64_t)(W.sigctr++);
         count_landing("foreign_timer_add", t);
+        if (zero) PROBE("timer.signal_zero");
         const uint64_t h = cmb_process_timer_add(t->pp, d, sig);
-        cause *c = cause_add(t, CK_TIMER, sig, tnow() + d, true); c->handle = h;
+        cause *c = cause_add(t, CK_TIMER, sig, tnow() + d, !zero); c->handle = h;
         t->timer_handle[t->ntimers] = h; t->timer_cause[t->ntimers] = (int)(c - t->cs); t->ntimers++;
         TR3("ftimer", j, sig, dbits(c->due));
     } else if (what == 1) {                            /* clear all */
@@ -373,6 +384,7 @@ void proc_end(proc *pr, int endkind, void *val)
     extern void mon_fold_buffer(proc *pr);
     mon_fold_buffer(pr);
     pr->finished = true; pr->endkind = endkind; pr->exitv = val; pr->end_time = tnow(); pr->end_seq = W.seq;
+    pr->ended_in_op = pr->op;
     if (pr->op != OP_NONE) {
         static char nm[OP_NOPS][40];
         if (!nm[pr->op][0]) snprintf(nm[pr->op], sizeof nm[pr->op], "end.while_in_%s", opname[pr->op]);
@@ -495,12 +507,14 @@ static void exec_step(proc *pr, const pline *l)
     } else if (pis(l, "TADD") || pis(l, "TSET")) {
         if (pr->ntimers >= MAXTIMERS) return;
         const double d = dur_of(pa(l, 1));
-        const int64_t sig = 2000 + (int64_t)(W.sigctr++);
+        const bool zero = pa(l, 2) == 1;                /* a timer that carries the success code */
+        const int64_t sig = zero ? CMB_PROCESS_SUCCESS : 2000 + (int64_t)(W.sigctr++);
+        if (zero) PROBE("timer.signal_zero");
         if (pis(l, "TSET")) {
             for (int i = 0; i < pr->ncs; i++) if (pr->cs[i].kind == CK_TIMER && (pr->cs[i].state == CS_ARMED || pr->cs[i].state == CS_MAYBE)) pr->cs[i].state = CS_DEAD;
         }
         const uint64_t h = pis(l, "TSET") ? cmb_process_timer_set(pr->pp, d, sig) : cmb_process_timer_add(pr->pp, d, sig);
-        cause *c = cause_add(pr, CK_TIMER, sig, tnow() + d, true); c->handle = h;
+        cause *c = cause_add(pr, CK_TIMER, sig, tnow() + d, !zero); c->handle = h;      /* a success code that hits a hold or a wait is not for it: it may vanish */
         pr->timer_handle[pr->ntimers] = h; pr->timer_cause[pr->ntimers] = (int)(c - pr->cs); pr->ntimers++;
         TR3("timer", pr->id, sig, dbits(c->due));
     } else if (pis(l, "TBURST")) {
@@ -614,7 +628,7 @@ static void exec_step(proc *pr, const pline *l)
         const int b = (int)((uint64_t)pa(l, 1) % (uint64_t)W.nbuf);
         const bool put = pis(l, "BPUT");
         uint64_t n = amount_of(pa(l, 2), W.bufcap[b]);
-        if (put && n == 0) n = 1;
+        if (n == 0) PROBE(put ? "buf.put_of_zero" : "buf.get_of_zero");       /* "arbitrary amounts (zero, ...)": the header sets no lower limit */
         call_begin(pr, put ? OP_BPUT : OP_BGET, b, (int64_t)n);
         pr->buf_req = n; pr->bufvar = n; pr->buf_booked = 0;
         ret = put ? cmb_buffer_put(W.buf[b], &pr->bufvar) : cmb_buffer_get(W.buf[b], &pr->bufvar);
